@@ -11,6 +11,7 @@ import (
 	"golang.org/x/tools/go/ssa"
 
 	"gfs3check/internal/core"
+	"gfs3check/internal/inline"
 	"gfs3check/internal/lockset"
 	"gfs3check/internal/oblig"
 )
@@ -1984,9 +1985,19 @@ func rule099(r *core.Run) {
 		return false
 	}
 	n, ctl := 0, 0
+	bl := inline.Baseline()
 	for _, fn := range r.P.RepoFuncs() {
 		res := fn.Signature.Results()
 		if res.Len() == 0 || !core.IsErrorType(res.At(res.Len()-1).Type()) || len(fn.Blocks) == 0 {
+			continue
+		}
+		// only the operations the rules were written against (and their closures): a helper a later
+		// change adds may well be a small error constructor
+		top := fn
+		for top.Parent() != nil {
+			top = top.Parent()
+		}
+		if obj, ok := top.Object().(*types.Func); !ok || !bl[obj.FullName()] {
 			continue
 		}
 		name := fname(r, fn)
